@@ -113,6 +113,28 @@ def model_check(spec, cfg, cwd, workers=None, timeout=3000, extra=(), heap="12g"
     return r
 
 
+def prove(module, cwd, timeout=900):
+    """Check a TLAPS proof module (spec/<module>.tla and the modules it extends) with tlapm. Returns the evidence entry
+    dict(module, obligations, discharged). An unproved obligation is a problem of the specification: exit 2, never a violation."""
+    d = tempfile.mkdtemp(prefix="tlaps", dir=cwd)
+    for f in os.listdir(SPEC):
+        if f.endswith("Arith.tla"):
+            shutil.copy(os.path.join(SPEC, f), d)
+    t0 = time.time()
+    try:
+        p = subprocess.run(["tlapm", "--threads", str(min(NCPU, 16)), "--cleanfp", module + ".tla"], cwd=d, capture_output=True, text=True, timeout=timeout)
+    except subprocess.TimeoutExpired:
+        raise Infra("tlapm timed out on %s" % module)
+    out = p.stdout + p.stderr
+    m = re.search(r"All (\d+) obligations? proved", out)
+    if p.returncode != 0 or not m:
+        raise Infra("TLAPS did not prove %s:\n%s" % (module, "\n".join(l for l in out.splitlines() if not l.startswith(("Called from", "Raised")))[-4000:]))
+    shutil.rmtree(d, ignore_errors=True)
+    n = int(m.group(1))
+    log("%s: TLAPS proved %d obligations in %.1fs" % (module, n, time.time() - t0))
+    return dict(module=module, obligations=n, discharged=n, theorems=re.findall(r"^THEOREM (\w+)", open(os.path.join(SPEC, module + ".tla")).read(), re.M))
+
+
 def split_trace(path, nchunks, cwd, boundary=None):
     """Split an ndjson trace into chunks (at lines for which boundary(line) is true, default any line)."""
     with open(path) as f:
